@@ -2,7 +2,7 @@
 import random
 from fractions import Fraction
 from . import core, sketchcheck
-from .sketchgen import Builder, mapspec, STORES, rand_values
+from .sketchgen import Builder, mapspec, STORES, rand_values, spec_list
 from .storegen import Shadow
 from .c06 import expect_decoded, split_kobs
 from .core import f2h
@@ -36,6 +36,8 @@ def build(rng, facts, name):
     for kind in rng.sample(TARGETS, 3):
         for P in ("P", "P3"):
             b.emit("kfromproto r %s %s" % (P, kind), "ok"); b.emit("kobs r", expect_decoded(j0, kind, loose=arbitrary))
+    # streaming the same sketch again, into another writer, gives the same message (the writer holds no state between calls; the bytes themselves may order hash-map bins differently)
+    jb = b.emit("kstream sb k", "ok"); b.emit("kstream sb2 k", "ok"); b.emit("kpunmarshal P5 sb2", "ok"); b.emit("kpobs P5", ("same", jp))
     # the message is a value: it keeps describing the sketch as it was when converted, whatever happens to the sketch afterwards
     b.kcopy("kk", "k"); b.emit("ktoproto PP kk", "ok"); jpp = b.emit("kpobs PP")
     if rng.random() < 0.5: b.kclear("kk")
@@ -85,7 +87,7 @@ def build_store(rng, name):
 def run(tier, seed):
     rng = random.Random(seed)
     ok, log = core.build_vrun()
-    specs = [mapspec(rng)[0] for _ in range(10 if tier == "quick" else 40)] + ["log:g:%s:%s" % (f2h(1.02), f2h(0.0)), "lin:g:%s:%s" % (f2h(1.02), f2h(0.0)), "cub:g:%s:%s" % (f2h(1.015), f2h(0.0)), "lin:g:%s:%s" % (f2h(1.1), f2h(-7.5))]
+    specs = spec_list(rng, 10 if tier == "quick" else 40) + ["log:g:%s:%s" % (f2h(1.02), f2h(0.0)), "lin:g:%s:%s" % (f2h(1.02), f2h(0.0)), "cub:g:%s:%s" % (f2h(1.015), f2h(0.0)), "lin:g:%s:%s" % (f2h(1.1), f2h(-7.5))]
     facts = sketchcheck.learn_specs("C09", specs) if ok else {}
     n = 250 if tier == "quick" else 6000
     builders = ([build(rng, facts, "k%d" % i) for i in range(n)] + [build_store(rng, "s%d" % i) for i in range(n)]) if facts else []
